@@ -4,25 +4,42 @@
 (* oracle).                                                                *)
 (*                                                                         *)
 (* Observable events:                                                      *)
-(*   PCreate / PDelete       the watched path is created / deleted         *)
-(*   ZCreate(m) / ZDelete(m) member node m is created / deleted under it   *)
-(*   Join(m) / Leave(m)      on_join / on_leave was called for member m    *)
-(*   Raised(cb)              that callback raised                          *)
-(*   Q(present)              nothing is in flight any more: every watch    *)
-(*                           event was delivered and fully processed       *)
-(*   Serve / Deliver / Other progress markers, no meaning here             *)
+(*   PCreate / PDelete          the watched path is created / deleted      *)
+(*   ZCreate(m, d) / ZDelete(m) member node named m, carrying member data  *)
+(*                              d, is created / deleted under it           *)
+(*   Join(d) / Leave(d)         on_join / on_leave was called with a Member *)
+(*                              VALUE equal to data d (the field m of the   *)
+(*                              event, the node name, is informational)    *)
+(*   Raised                     that callback raised                       *)
+(*   Q(present)                 nothing is in flight any more: every watch *)
+(*                              event was delivered and fully processed;   *)
+(*                              present = data of the nodes now present    *)
+(*   Serve / Deliver / Other    progress markers, no meaning here          *)
+(*                                                                         *)
+(* Members are identified the way a consumer can identify them: by the     *)
+(* Member value it is handed (Member.__eq__/__hash__ ignore the node name; *)
+(* LoadBalancerSink keys its servers by endpoint, ignores a join for an    *)
+(* endpoint it holds and drops the endpoint on a leave).  The consumer's    *)
+(* view is therefore the SET of values obtained by applying joins and      *)
+(* leaves in order, and "present" is the set of values of the nodes under  *)
+(* the path.  Histories are restricted (harness.distinctValues) to those    *)
+(* in which no two nodes present at the same time carry equal data: with   *)
+(* two equal registrations alive at once "the members present" is          *)
+(* ambiguous between nodes and values and the statement does not decide it; *)
+(* successive registrations of one instance under different node names     *)
+(* (delete + create with equal data) are in scope.                         *)
 (*                                                                         *)
 (* The abstract state is one record so that the code-shaped model can fold *)
 (* several callbacks of one loop cascade through the same operators:       *)
 (*   ACheck(a, e)  "ok" or the first failing clause, in the state before e *)
 (*   AStep(a, e)   the unguarded update                                    *)
 (* Clauses (exactly the statement of C19, nothing more):                   *)
-(*   C19.alternate       a member joins while the consumer holds it (two   *)
+(*   C19.alternate       a value joins while the consumer holds it (two    *)
 (*                       joins without a leave in between) or leaves twice *)
-(*                       without a join in between.  A leave for a member  *)
+(*                       without a join in between.  A leave for a value   *)
 (*                       that never joined is not forbidden by the text.   *)
 (*   C19.agree           at quiescence the joins and leaves applied in     *)
-(*                       order leave exactly the members present under the *)
+(*                       order leave exactly the values present under the  *)
 (*                       path (none when the path does not exist).         *)
 (*   C19.survivesErrors  the same disagreement when a callback raised and  *)
 (*                       no notification at all was delivered after it:    *)
@@ -35,14 +52,16 @@ VARIABLE ast
 avars == <<ast>>
 
 AInit0 == [parent |-> FALSE,   \* the watched path exists
-           kids   |-> {},      \* member nodes under it
-           view   |-> {},      \* joins/leaves applied in order = members whose last event is a join
-           left   |-> {},      \* members whose last event is a leave
+           kids   |-> {},      \* member nodes under it: pairs <<node name, data>>
+           view   |-> {},      \* joins/leaves applied in order = values whose last event is a join
+           left   |-> {},      \* values whose last event is a leave
            raised |-> FALSE]   \* a callback raised and nothing was delivered since
 
 AInit == ast = AInit0
 
-APresent(a) == IF a.parent THEN a.kids ELSE {}
+ANames(a) == {p[1] : p \in a.kids}
+AValues(a) == {p[2] : p \in a.kids}
+APresent(a) == IF a.parent THEN AValues(a) ELSE {}
 
 SeqToSet(s) == {s[i] : i \in DOMAIN s}
 
@@ -56,10 +75,11 @@ ACheck(a, e) ==
   CASE e.e = "PCreate" -> IF a.parent THEN "harness.parentAbsent" ELSE "ok"
     [] e.e = "PDelete" -> IF ~a.parent THEN "harness.parentPresent"
                           ELSE IF a.kids # {} THEN "harness.childrenFirst" ELSE "ok"
-    [] e.e = "ZCreate" -> IF ~a.parent \/ e.m \in a.kids THEN "harness.createFresh" ELSE "ok"
-    [] e.e = "ZDelete" -> IF e.m \notin a.kids THEN "harness.deleteExisting" ELSE "ok"
-    [] e.e = "Join"    -> IF e.m \in a.view THEN "C19.alternate" ELSE "ok"
-    [] e.e = "Leave"   -> IF e.m \in a.left THEN "C19.alternate" ELSE "ok"
+    [] e.e = "ZCreate" -> IF ~a.parent \/ e.m \in ANames(a) THEN "harness.createFresh"
+                          ELSE IF e.d \in AValues(a) THEN "harness.distinctValues" ELSE "ok"
+    [] e.e = "ZDelete" -> IF e.m \notin ANames(a) THEN "harness.deleteExisting" ELSE "ok"
+    [] e.e = "Join"    -> IF e.d \in a.view THEN "C19.alternate" ELSE "ok"
+    [] e.e = "Leave"   -> IF e.d \in a.left THEN "C19.alternate" ELSE "ok"
     [] e.e = "Raised"  -> "ok"
     [] e.e = "Q"       -> AQCheck(a, SeqToSet(e.present))
     [] e.e \in {"Serve", "Deliver", "Other"} -> "ok"
@@ -68,10 +88,10 @@ ACheck(a, e) ==
 AStep(a, e) ==
   CASE e.e = "PCreate" -> [a EXCEPT !.parent = TRUE]
     [] e.e = "PDelete" -> [a EXCEPT !.parent = FALSE]
-    [] e.e = "ZCreate" -> [a EXCEPT !.kids = @ \cup {e.m}]
-    [] e.e = "ZDelete" -> [a EXCEPT !.kids = @ \ {e.m}]
-    [] e.e = "Join"    -> [a EXCEPT !.view = @ \cup {e.m}, !.left = @ \ {e.m}, !.raised = FALSE]
-    [] e.e = "Leave"   -> [a EXCEPT !.view = @ \ {e.m}, !.left = @ \cup {e.m}, !.raised = FALSE]
+    [] e.e = "ZCreate" -> [a EXCEPT !.kids = @ \cup {<<e.m, e.d>>}]
+    [] e.e = "ZDelete" -> [a EXCEPT !.kids = {p \in @ : p[1] # e.m}]
+    [] e.e = "Join"    -> [a EXCEPT !.view = @ \cup {e.d}, !.left = @ \ {e.d}, !.raised = FALSE]
+    [] e.e = "Leave"   -> [a EXCEPT !.view = @ \ {e.d}, !.left = @ \cup {e.d}, !.raised = FALSE]
     [] e.e = "Raised"  -> [a EXCEPT !.raised = TRUE]
     [] OTHER -> a
 
@@ -80,21 +100,21 @@ EvCheck(e) == ACheck(ast, e)
 EvUpd(e)   == ast' = AStep(ast, e)
 Ev(e)      == EvCheck(e) = "ok" /\ EvUpd(e)
 
-Mk(name, m) == [e |-> name, m |-> m]
-PCreateCheck == EvCheck(Mk("PCreate", 0))
-PCreateUpd == EvUpd(Mk("PCreate", 0))
-PDeleteCheck == EvCheck(Mk("PDelete", 0))
-PDeleteUpd == EvUpd(Mk("PDelete", 0))
-ZCreateCheck(m) == EvCheck(Mk("ZCreate", m))
-ZCreateUpd(m) == EvUpd(Mk("ZCreate", m))
-ZDeleteCheck(m) == EvCheck(Mk("ZDelete", m))
-ZDeleteUpd(m) == EvUpd(Mk("ZDelete", m))
-JoinCheck(m) == EvCheck(Mk("Join", m))
-JoinUpd(m) == EvUpd(Mk("Join", m))
-LeaveCheck(m) == EvCheck(Mk("Leave", m))
-LeaveUpd(m) == EvUpd(Mk("Leave", m))
+Mk(name, m, d) == [e |-> name, m |-> m, d |-> d]
+PCreateCheck == EvCheck(Mk("PCreate", 0, 0))
+PCreateUpd == EvUpd(Mk("PCreate", 0, 0))
+PDeleteCheck == EvCheck(Mk("PDelete", 0, 0))
+PDeleteUpd == EvUpd(Mk("PDelete", 0, 0))
+ZCreateCheck(m, d) == EvCheck(Mk("ZCreate", m, d))
+ZCreateUpd(m, d) == EvUpd(Mk("ZCreate", m, d))
+ZDeleteCheck(m) == EvCheck(Mk("ZDelete", m, 0))
+ZDeleteUpd(m) == EvUpd(Mk("ZDelete", m, 0))
+JoinCheck(m, d) == EvCheck(Mk("Join", m, d))
+JoinUpd(m, d) == EvUpd(Mk("Join", m, d))
+LeaveCheck(m, d) == EvCheck(Mk("Leave", m, d))
+LeaveUpd(m, d) == EvUpd(Mk("Leave", m, d))
 RaisedCheck == "ok"
-RaisedUpd == EvUpd(Mk("Raised", 0))
+RaisedUpd == EvUpd(Mk("Raised", 0, 0))
 QuietCheck(present) == AQCheck(ast, present)
 QuietUpd == UNCHANGED ast
 
